@@ -4,5 +4,5 @@ check("C16", "model_checking",
       "probed with 4 subscribed sockets per node and per-socket sentinel notices as barrier before the complete notification lists are compared; firewall drops are silent at "
       "destination and in transit; DialContext to a never-bound and to a just-closed service returns within 5 s of the notice reaching the dialling socket; the close-while-sending "
       "race runs in a child process and every arrival is classified from the hook events (delivered / answered / overtaken by Close, never both, never lost otherwise, no crash); traces validated by TLC against DataPlaneTrace.tla.",
-      "Trusted: per-socket FIFO of notifications behind the node's broker; one deliverer in the close race (several blocked deliverers belong to C17); 5 s dial threshold vs 15 s handshake timeout.",
+      "Trusted: per-socket FIFO of notifications behind the node's broker; a datagram waiting for the reader when Close() runs may vanish without notice (one per deliverer); 5 s dial threshold vs 15 s handshake timeout.",
       "TLA+ spec + TLC exhaustive small scope; real-mesh conformance with barriers; trace validation (B2)", "E2 meshsim", "DESIGN.md section 6 C16")
